@@ -95,6 +95,42 @@ impl PropCase for Cap {
             }
             logs.push((if self.default_buf { "R/default-buffer" } else { "R/static-buffer" }, lg));
         }
+        // the same through the builder's other constructors and target types (explicit buffers only):
+        // embedded-hal source (no end of input: stop at the first would-block after all bytes were pulled) and the
+        // File target, where a decode error must surface unchanged through the parse-error type
+        if !self.default_buf {
+            let env = ReaderEnv::from_bytes(&s);
+            let mut rd = new_reader(&env, Src::Eh, RBuf::Kind(buf));
+            let mut lg = Log::new();
+            for _ in 0..s.len() + 4 {
+                let out = rd.r.call(Api::Read, Target::Bytes);
+                let pulled = (rd.pulled)().unwrap_or(0);
+                match out {
+                    ROut::Bytes(b) => lg.push((pulled.saturating_sub(1), TEv::Ok(b))),
+                    ROut::DecodeErr(e) => lg.push((pulled.saturating_sub(1), TEv::Err(e))),
+                    ROut::IoErr(IoKind::WouldBlock, 0) if pulled >= s.len() => break,
+                    other => return Err(crate::core::Fail::new("reader-eh", "decode results, then would-block on the idle line", other.short())),
+                }
+            }
+            logs.push(("R/eh-static-buffer", lg));
+            if n < l {
+                let mut rd = new_reader(&env, Src::Slice, RBuf::Kind(buf));
+                let mut saw_oom = false;
+                for _ in 0..s.len() + 4 {
+                    match rd.r.call(Api::Next, Target::File) {
+                        ROut::None => break,
+                        ROut::DecodeErr(DErr::Oom) => saw_oom = true,
+                        _ => {}
+                    }
+                }
+                ensure!(
+                    saw_oom,
+                    "oom-through-File-target",
+                    format!("capacity {} < payload length {}: next::<File>() reports DecodeErr(OutOfMemory)", n, l),
+                    "no DecodeErr(OutOfMemory) surfaced through the File target"
+                );
+            }
+        }
         for (fe, lg) in &logs {
             if n >= l {
                 // capacity suffices: exact expected trace for both frames
